@@ -21,7 +21,7 @@ def plan(tier, seed):
 
 def required(tier):
     return {"ll": 100, "ll_per_bin": 100, "ll_multinom": 100, "optimal_sfs_scaling": 100, "scale-invariant": 100,
-            "multinom-is-max": 100, "autofold": 20, "data-maximises": 30, "linear-residual": 100, "anscombe-residual": 100}
+            "multinom-is-max": 100, "mask-removes-term": 100, "autofold": 20, "data-maximises": 30, "linear-residual": 100, "anscombe-residual": 100}
 
 
 def poisson_terms(m, d):
@@ -156,6 +156,31 @@ def run(spec, rec):
                 rec.close("anscombe-residual", relerr(np.asarray(r.data)[Jp], ref[Jp]), TOL, site="Inference.Anscombe_Poisson_residual", tags=tags)
                 sgn_ok = np.all(np.sign(np.asarray(r.data)[Jp]) == np.sign((M - D)[Jp]))
                 rec.check("residual-sign", bool(sgn_ok), site="Inference.Anscombe_Poisson_residual", tags=tags)
+        # the same data evaluated again with one more entry masked (in the data, or in the model): the likelihood loses exactly that
+        # entry's Poisson term, the per-bin array masks it, and the scaling is recomputed over the smaller set
+        if not folded_data and nJ >= 4:
+            terms = poisson_terms(M, D)
+            for who in ("data", "model"):
+                idx = tuple(int(v) for v in np.argwhere(J)[int(rng.integers(nJ))])
+                m2, d2 = model.copy(), data.copy()
+                (d2 if who == "data" else m2).mask[idx] = True
+                J2 = J.copy()
+                J2[idx] = False
+                t2 = dict(tags, masked_in=who)
+                ok, l2 = rec.noraise("returns", lambda: Inference.ll(m2, d2), site="Inference.ll", tags=t2)
+                if ok:
+                    rec.close("mask-removes-term", abs(float(l2) - float(np.sum(terms[J2]))) / max(abs(ll_ref), 1.0), TOL, site="Inference.ll", tags=t2,
+                              observed=float(l2), expected=float(np.sum(terms[J2])))
+                ok, per2 = rec.noraise("returns", lambda: Inference.ll_per_bin(m2, d2), site="Inference.ll_per_bin", tags=t2)
+                if ok:
+                    rec.check("ll_per_bin-mask", np.array_equal(np.asarray(np.ma.getmaskarray(per2)), ~J2), site="Inference.ll_per_bin", tags=t2)
+                if D[J2].sum() > 0:
+                    th2 = float(D[J2].sum() / M[J2].sum())
+                    ok, lm2 = rec.noraise("returns", lambda: Inference.ll_multinom(m2, d2), site="Inference.ll_multinom", tags=t2)
+                    if ok:
+                        ref2 = float(np.sum(poisson_terms(th2 * M[J2], D[J2])))
+                        rec.close("mask-removes-term", abs(float(lm2) - ref2) / max(abs(ref2), 1.0), TOL, site="Inference.ll_multinom", tags=t2,
+                                  observed=float(lm2), expected=ref2)
         same = (np.array_equal(model.data, snap[0]) and np.array_equal(np.asarray(model.mask), snap[1])
                 and np.array_equal(data.data, snap[2]) and np.array_equal(np.asarray(data.mask), snap[3]))
         rec.check("inputs-untouched", same, site="Inference", tags=tags)
